@@ -91,7 +91,7 @@ def _tokens(ctx, index):
             line=e.lineno,
         )
     ctx.count("prefix_matched_tokens", n_tok)
-    ctx.floor("tokens matched by prefix", n_tok, 8)
+    ctx.floor("tokens matched by prefix", n_tok, 6)
 
 
 def run(ctx):
@@ -166,6 +166,17 @@ def run(ctx):
                 )
                 continue
             sl = slice_of(d)
+            if sl is None and isinstance(d, ast.Call):
+                # a private slicing helper: `return <param>[slice(a, b)]` / `<param>[a:b]` with the arguments bound at the call
+                h = index.funcs.get(index.callee(f.mod, d, f) or "")
+                if h is not None and h.mod is f.mod:
+                    rets = [x for x in h.node.body if isinstance(x, ast.Return)]
+                    plain = all(isinstance(x, ast.Return) or (isinstance(x, ast.Expr) and isinstance(x.value, ast.Constant)) for x in h.node.body)
+                    inner = slice_of(rets[0].value) if len(rets) == 1 and plain else None
+                    if inner is not None:
+                        bound = {p_: norm(a_) for p_, a_ in zip(h.params, d.args)}
+                        bound.update({k_.arg: norm(k_.value) for k_ in d.keywords if k_.arg})
+                        sl = tuple(bound.get(x, x) if x is not None else None for x in inner)
             if sl is not None:
                 s, lo, hi = sl
                 if which == "header":
